@@ -629,3 +629,44 @@ def read_bounds(ctx: Ctx, model: Model, fi, r):
 
 def _is_length(t):
     return t == ("param", "length") or callee_name(t) in ("PyUnicode_GET_LENGTH", "len")
+
+
+def pending_flush(ctx: Ctx, model: Model, backend: str):
+    """EM-<tag>-PENDING: the bytes of an incomplete UTF-8 sequence are held back in a buffer whose fill count is loop-carried
+    (the variable multiplied by 3 to find where the pending escapes began). Output must stay in input order, so every
+    emission happens on a path that has accounted for that count in this iteration: it was re-assigned (joined by the new
+    byte, flushed, reset) or the path knows it to be zero. An emission under the untouched, untested loop-carried count
+    goes out ahead of pending escapes that are flushed later (or never decoded with their continuation)."""
+    u = Unquoter(ctx, model, backend)
+    rule = f"EM-{u.tag}-PENDING"
+    ctx.rule(rule, floor=6, what="every emission happens after the pending multi-byte buffer count was updated or found empty on that path")
+    pend = {}
+    for e in u.r.events:
+        for n, v in e.state.env.items():
+            if isinstance(v, tuple) and v and v[0] == "phi" and n not in pend and u._is_pending(v):
+                pend[n] = v
+    if len(pend) != 1:
+        raise AnalysisError(f"{u.qual}: the count of pending escape bytes was not identified (candidates {sorted(pend)}): unknown idiom")
+    (name, phi), = pend.items()
+    seen = set()
+    for e in u.r.by_kind("mutate"):
+        if e.on_name != u.acc or e.method not in ("append", "extend"):
+            continue
+        st = e.state
+        cur = st.env.get(name)
+        if cur != phi:
+            ok, how = True, f"{name} re-assigned on the path ({show(cur)[:30]})"
+        elif any(t == phi for t in walk(e.args[0])):
+            ok, how = True, f"the emission is the flush itself (its bounds are computed from {name})"
+        else:
+            empty = truth(phi, st.facts) is False or truth(("cmp", "Eq", phi, ("const", 0)), st.facts) is True
+            ok, how = empty, f"{name} known to be zero on the path"
+        key = (e.node.lineno, ok)
+        if key in seen:
+            continue
+        seen.add(key)
+        ctx.instance(rule)
+        ctx.ob(rule, u.qual, f"{u.acc}.{e.method}({show(e.args[0])[:60]})", ok,
+               f"this emission is reached with the pending-byte count `{name}` neither updated nor tested in the iteration: escapes of an "
+               "incomplete multi-byte sequence still held in the buffer come out after it (or are decoded across it): the decoded view is not the "
+               "percent-decoding of the raw text", where(u.fi, e.node), sample=how)
